@@ -48,6 +48,12 @@ def run(ctx):
         ctx.guard("cached-implies-ok" + tag, cached_implies_ok, ctx, crate, crs, tag)
         ctx.guard("render-terminates" + tag, render_terminates, ctx, crate, crs, tag)
         ctx.guard("panic-census" + tag, panic_census, ctx, crate, crs, tag, cfg)
+        # protocols behind `unreachable!` in decide() and the level assertion in analyze_unsolvable (shared with C01 / C02):
+        # negative assertions are re-applied in full each round; a run is declared unsolvable only at its first level
+        import c01, c02
+        ctx.guard("assertions" + tag, c01.assertions, ctx, crate, crs, tag)
+        ctx.guard("conflict-signal" + tag, c02.conflict_signal, ctx, crate, crs, tag)
+        ctx.guard("unsolvable-at-root" + tag, c02.unsolvable_at_root, ctx, crate, crs, tag)
 
 
 # ------------------------------------------------------------------------------------------------
@@ -220,7 +226,8 @@ def parent_not_false(ctx, crate, crs, tag):
         # root encode happens right after deciding the root solvable true
         encs = rs.calls_to(ENC + "encode")
         tads = rs.calls_to(DT + "try_add_decision")
-        ok_first = bool(encs) and bool(tads) and rs.dominates(tads[0][0], encs[0][0])
+        root_encs = [i for i, t in encs if {x for x in q.leaves(rs, t["args"][1]) if not x.startswith("call:")} <= {"arg:2", "const"}]
+        ok_first = bool(root_encs) and all(any(rs.dominates(j, i) for j, _ in tads) for i in root_encs)
         ctx.ob(R, rs.key, "root-decided-true-before-encode", ok_first, rs.loc(), "the run's solvable is decided true before it is encoded")
 
 
@@ -430,8 +437,20 @@ def panic_census(ctx, crate, crs, tag, cfg):
         key = (s["function"], s["kind"], s["msg"])
         found[key] = found.get(key, 0) + 1
     n_new = 0
+    # a reviewed site that merely moved to another function (helper inlined into its caller, code moved between functions) is
+    # recognised by (kind, message): the number of reachable sites with that pair must not exceed the reviewed number
+    by_msg_allowed, by_msg_found = {}, {}
+    for (fn, kind, msg), e in allowed.items():
+        by_msg_allowed[(kind, msg)] = by_msg_allowed.get((kind, msg), 0) + e.get("count", 1)
+    for (fn, kind, msg), cnt in found.items():
+        by_msg_found[(kind, msg)] = by_msg_found.get((kind, msg), 0) + cnt
     for key, cnt in sorted(found.items()):
         e = allowed.get(key)
+        if e is None and key[2] and by_msg_found.get(key[1:], 0) <= by_msg_allowed.get(key[1:], 0):
+            moved = [k for k in allowed if k[1:] == key[1:]]
+            allowed[key] = dict(allowed[moved[0]], moved_from=moved[0][0])
+            ctx.notes.append("panic site %s:%r moved from %s to %s" % (key[1], key[2][:40], moved[0][0], key[0]))
+            continue
         if e is None:
             n_new += 1
             w = [s["where"] for s in sites if (s["function"], s["kind"], s["msg"]) == key][0]
